@@ -15,10 +15,8 @@ Scale(a, f) == [shape |-> a.shape, flat |-> [k \in DOMAIN a.flat |-> f * a.flat[
 TheMetric(r, S, adims, ashape) ==
   LET picks == AllowedPicks(r.reg, S, adims) IN MetricOfPick(r.grid, r.reg, CHOOSE p \in picks : TRUE, adims, ashape)
 
-\* operator events use registries that need no interpolation: the metric itself, without the 2^|S| carried above
-PlainMetric(r, S, adims, ashape) ==
-  LET m == TheMetric(r, S, adims, ashape)  f == 2 ^ Cardinality(S) IN
-  [dims |-> m.dims, arr |-> [shape |-> m.arr.shape, flat |-> [k \in DOMAIN m.arr.flat |-> m.arr.flat[k] \div f]]]
+\* operator events use registries that need no interpolation (m = 0)
+PlainMetric(r, S, adims, ashape) == TheMetric(r, S, adims, ashape)
 
 VGetMetric(r) ==
   LET S == SeqToSet(r.axes)
@@ -29,7 +27,8 @@ VGetMetric(r) ==
      ELSE IF r.out.k # "array" THEN "raised-although-a-metric-exists"
      ELSE IF ~(SeqToSet(r.out.dims) \subseteq SeqToSet(r.adims)) THEN "does-not-broadcast"
      ELSE LET match == {p \in usable : LET m == MetricOfPick(r.grid, r.reg, p, r.adims, r.ashape) IN
-                                       m.dims = r.out.dims /\ m.arr.flat = r.out.flat} IN
+                                       m.dims = r.out.dims /\
+                                       RatSeqEq(r.out.flat, [k \in DOMAIN m.arr.flat |-> <<m.arr.flat[k], 2 ^ m.m>>])} IN
           IF match = {} THEN "wrong-metric"
           ELSE IF \A p \in match : PickInterpolates(r.grid, r.reg, p, r.adims) /\ ~r.warned THEN "interpolated-without-warning"
           ELSE "ok"
